@@ -11,6 +11,10 @@ package actor
 // re-sent by unstash, and the harness sees every delivery in order. After each call the handler records the
 // error left in the context (and clears it so the actor keeps running) and StashSize().
 // At the end the gate is opened, the actor drains whatever is left ("extra" deliveries).
+// "R" rotates the process-wide ReceiveContext pool while messages are parked in the stash: twice the pool's
+// capacity of cheap messages go through a sink actor, so every pooled context is handed out and reused.
+// Every case runs in its own actor under a deadline: when a call never returns or the actor does not become idle
+// the case is abandoned (the actor is left alone, nothing waits for it) and reported as hung with the call in flight.
 
 import (
 	"context"
@@ -18,6 +22,7 @@ import (
 	"fmt"
 	"runtime"
 	"sync"
+	"sync/atomic"
 	"testing"
 	"time"
 
@@ -26,7 +31,7 @@ import (
 )
 
 type c13Event struct {
-	E string   `json:"e"` // "A" arrive, "D" deliver
+	E string   `json:"e"` // "A" arrive, "D" deliver, "R" rotate the context pool
 	M int      `json:"m"`
 	D []string `json:"d"` // "S" Stash, "U" Unstash, "A" UnstashAll
 }
@@ -46,6 +51,8 @@ type c13Res struct {
 
 type c13Delivery struct {
 	Noop bool     `json:"noop,omitempty"` // "D" event with nothing to deliver
+	Rot  bool     `json:"rot,omitempty"`  // "R" event; Size = StashSize() after the rotation
+	Size int      `json:"size,omitempty"`
 	ID   int      `json:"id"`
 	Same bool     `json:"same"` // the delivered context carries the very message that was sent, with its sender
 	Res  []c13Res `json:"res"`
@@ -53,10 +60,15 @@ type c13Delivery struct {
 
 type c13Out struct {
 	ID        int           `json:"id"`
-	Steps     []c13Delivery `json:"steps"`  // one per "D" event
-	Extra     []c13Delivery `json:"extra"`  // deliveries that happened after the last event (free run)
+	Steps     []c13Delivery `json:"steps"` // one per "D" event
+	Extra     []c13Delivery `json:"extra"` // deliveries that happened after the last event (free run)
 	FinalSize int           `json:"final_size"`
 	Lost      bool          `json:"lost,omitempty"` // an expected delivery never happened
+	Hung      bool          `json:"hung,omitempty"` // a call did not return / the actor did not become idle in time
+	HungEvent int           `json:"hung_event"`     // index of the event during which it hung (-1: after the last event)
+	HungCall  int           `json:"hung_call"`      // index of the call in flight within that delivery (-1: none)
+	HungWhere string        `json:"hung_where,omitempty"`
+	Skipped   bool          `json:"skipped,omitempty"` // not run: earlier cases hung and hold dispatcher workers
 	Err       string        `json:"err,omitempty"`
 }
 
@@ -67,7 +79,9 @@ type c13Actor struct {
 	done   chan c13Delivery
 	mu     sync.Mutex
 	sent   map[int]*c13Msg
-	sender *PID // every message of the case is sent by this actor
+	sender *PID         // every message of the case is sent by this actor
+	inCall atomic.Int32 // index of the call in flight (-1: none), for the hang report
+	inID   atomic.Int32 // identity of the message being handled
 }
 
 func (a *c13Actor) PreStart(*Context) error { return nil }
@@ -83,7 +97,9 @@ func (a *c13Actor) Receive(ctx *ReceiveContext) {
 	a.mu.Unlock()
 	rec := c13Delivery{ID: m.ID, Same: same, Res: []c13Res{}}
 	self := ctx.Self()
-	for _, act := range d {
+	a.inID.Store(int32(m.ID))
+	for i, act := range d {
+		a.inCall.Store(int32(i))
 		before := int(self.StashSize())
 		switch act {
 		case "S":
@@ -105,6 +121,7 @@ func (a *c13Actor) Receive(ctx *ReceiveContext) {
 		}
 		rec.Res = append(rec.Res, c13Res{Act: act, Err: kind, Before: before, After: int(self.StashSize())})
 	}
+	a.inCall.Store(-1)
 	a.done <- rec
 }
 
@@ -114,8 +131,12 @@ func (*c13Sender) PreStart(*Context) error { return nil }
 func (*c13Sender) PostStop(*Context) error { return nil }
 func (*c13Sender) Receive(*ReceiveContext) {}
 
-func c13Quiesce(pid *PID) error {
-	deadline := time.Now().Add(30 * time.Second)
+func c13Patience() time.Duration {
+	return time.Duration(verifEnvInt("VERIF_C13_PATIENCE_MS", 6000)) * time.Millisecond
+}
+
+func c13Quiesce(pid *PID, patience time.Duration) error {
+	deadline := time.Now().Add(patience)
 	for i := 0; ; i++ {
 		if pid.mailbox.IsEmpty() && pid.systemMailbox.IsEmpty() && pid.schedState.Load() == dispatchIdle {
 			return nil
@@ -131,9 +152,67 @@ func c13Quiesce(pid *PID) error {
 	}
 }
 
-func c13RunCase(ctx context.Context, sys ActorSystem, c c13Case) c13Out {
-	out := c13Out{ID: c.ID, Steps: []c13Delivery{}, Extra: []c13Delivery{}}
+// c13Size reads StashSize() without trusting it to return (a corrupted chain can be cyclic).
+func c13Size(pid *PID, patience time.Duration) (int, bool) {
+	ch := make(chan int, 1)
+	go func() { ch <- int(pid.StashSize()) }()
+	select {
+	case n := <-ch:
+		return n, true
+	case <-time.After(patience):
+		return -1, false
+	}
+}
+
+// sink: swallows the messages that rotate the context pool
+type c13Sink struct{}
+
+func (*c13Sink) PreStart(*Context) error { return nil }
+func (*c13Sink) PostStop(*Context) error { return nil }
+func (*c13Sink) Receive(ctx *ReceiveContext) {
+	if m, ok := ctx.Message().(*c13Tick); ok {
+		m.n.Add(1)
+	}
+}
+
+type c13Tick struct{ n atomic.Int64 } // one per rotation, counts how many of its copies the sink has handled
+
+// c13Rotate sends twice the context pool's capacity of messages through the sink and waits until all were
+// handled: every context sitting in the pool is handed out and reused at least once.
+func c13Rotate(ctx context.Context, sinkPID *PID, patience time.Duration) error {
+	n := 2 * cap(contextCh)
+	tick := &c13Tick{}
+	for i := 0; i < n; i++ {
+		if err := Tell(ctx, sinkPID, tick); err != nil {
+			return err
+		}
+	}
+	deadline := time.Now().Add(patience)
+	for tick.n.Load() < int64(n) {
+		if time.Now().After(deadline) {
+			return fmt.Errorf("sink did not drain")
+		}
+		time.Sleep(50 * time.Microsecond)
+	}
+	return nil
+}
+
+type c13Env struct {
+	sys     ActorSystem
+	sinkPID *PID
+	hung    atomic.Int32
+}
+
+func c13RunCase(ctx context.Context, env *c13Env, c c13Case) c13Out {
+	out := c13Out{ID: c.ID, Steps: []c13Delivery{}, Extra: []c13Delivery{}, HungEvent: -1, HungCall: -1}
+	if env.hung.Load() >= 2 {
+		out.Skipped = true
+		return out
+	}
+	sys := env.sys
+	patience := c13Patience()
 	a := &c13Actor{gate: make(chan []string), done: make(chan c13Delivery, 1<<14), sent: map[int]*c13Msg{}}
+	a.inCall.Store(-1)
 	var opts []SpawnOption
 	if c.Buf {
 		opts = append(opts, WithStashing())
@@ -143,20 +222,24 @@ func c13RunCase(ctx context.Context, sys ActorSystem, c c13Case) c13Out {
 		out.Err = "spawn: " + err.Error()
 		return out
 	}
-	defer func() { _ = pid.Shutdown(ctx) }()
 	sender, err := sys.Spawn(ctx, fmt.Sprintf("c13s-%d", c.ID), &c13Sender{})
 	if err != nil {
 		out.Err = "spawn sender: " + err.Error()
 		return out
 	}
-	defer func() { _ = sender.Shutdown(ctx) }()
 	a.mu.Lock()
 	a.sender = sender
 	a.mu.Unlock()
-	const patience = 20 * time.Second
+	hang := func(ev int, where string) c13Out {
+		// abandon the case: the actor may be blocked for good, nothing may wait for it
+		out.Hung, out.HungEvent, out.HungCall, out.HungWhere = true, ev, int(a.inCall.Load()), where
+		env.hung.Add(1)
+		return out
+	}
 	pending := 0
+	aborted := false
 loop:
-	for _, e := range c.Events {
+	for ei, e := range c.Events {
 		switch e.E {
 		case "A":
 			m := &c13Msg{ID: e.M}
@@ -165,9 +248,21 @@ loop:
 			a.mu.Unlock()
 			if err := sender.Tell(ctx, pid, m); err != nil {
 				out.Err = fmt.Sprintf("tell %d: %v", e.M, err)
+				aborted = true
 				break loop
 			}
 			pending++
+		case "R":
+			if err := c13Rotate(ctx, env.sinkPID, 5*patience); err != nil {
+				out.Err = "rotate: " + err.Error()
+				aborted = true
+				break loop
+			}
+			n, ok := c13Size(pid, patience)
+			if !ok {
+				return hang(ei, "StashSize() did not return after the pool rotation")
+			}
+			out.Steps = append(out.Steps, c13Delivery{Rot: true, Size: n, Res: []c13Res{}})
 		case "D":
 			if pending == 0 {
 				out.Steps = append(out.Steps, c13Delivery{Noop: true, Res: []c13Res{}})
@@ -181,14 +276,15 @@ loop:
 			case a.gate <- d:
 			case <-time.After(patience):
 				out.Lost = true
+				out.HungEvent = ei
+				aborted = true
 				break loop
 			}
 			var rec c13Delivery
 			select {
 			case rec = <-a.done:
 			case <-time.After(patience):
-				out.Err = "handler did not finish"
-				break loop
+				return hang(ei, fmt.Sprintf("the handler of message %d did not return", a.inID.Load()))
 			}
 			out.Steps = append(out.Steps, rec)
 			pending--
@@ -202,9 +298,20 @@ loop:
 			}
 		}
 	}
+	_ = aborted
 	close(a.gate)
-	if err := c13Quiesce(pid); err != nil && out.Err == "" {
-		out.Err = err.Error()
+	if err := c13Quiesce(pid, patience); err != nil {
+		// still busy after the last event: it keeps delivering (or is stuck); collect what it did so far
+		for len(out.Extra) < 64 {
+			select {
+			case rec := <-a.done:
+				out.Extra = append(out.Extra, rec)
+				continue
+			default:
+			}
+			break
+		}
+		return hang(-1, "the actor did not become idle after the last event")
 	}
 	for {
 		select {
@@ -215,7 +322,13 @@ loop:
 		}
 		break
 	}
-	out.FinalSize = int(pid.StashSize())
+	n, ok := c13Size(pid, patience)
+	if !ok {
+		return hang(-1, "StashSize() did not return")
+	}
+	out.FinalSize = n
+	_ = pid.Shutdown(ctx)
+	_ = sender.Shutdown(ctx)
 	return out
 }
 
@@ -231,7 +344,11 @@ func TestVerifC13Stash(t *testing.T) {
 	if err := sys.Start(ctx); err != nil {
 		t.Fatalf("Start: %v", err)
 	}
-	defer func() { _ = sys.Stop(ctx) }()
+	env := &c13Env{sys: sys}
+	env.sinkPID, err = sys.Spawn(ctx, "c13-sink", &c13Sink{})
+	if err != nil {
+		t.Fatalf("spawn sink: %v", err)
+	}
 
 	// each running case may hold one dispatcher worker (GOMAXPROCS of them) at its gate
 	par := min(4, max(1, runtime.GOMAXPROCS(0)/4))
@@ -244,11 +361,14 @@ func TestVerifC13Stash(t *testing.T) {
 		go func(i int) {
 			defer wg.Done()
 			defer func() { <-sem }()
-			outs[i] = c13RunCase(ctx, sys, cases[i])
+			outs[i] = c13RunCase(ctx, env, cases[i])
 		}(i)
 	}
 	wg.Wait()
 	for _, o := range outs {
 		w.put(o)
+	}
+	if env.hung.Load() == 0 {
+		_ = sys.Stop(ctx) // with abandoned (blocked) actors Stop could wait for them: the process just ends instead
 	}
 }
